@@ -663,3 +663,50 @@ def rule_nt_record_class(ctx):
             ctx.holds("NTCLASS", key, f.where(stores[3][0][4]), "the class byte follows the flavour flags of the number type", nontrivial=True)
     ctx.floor("NTCLASS", 2, n, "(writers of number-type records for variable types)")
     return n
+
+
+def _signed_div_bytes(nodes, int_bits):
+    """(line, text) of stores `byte = <signed> / 256` among expression nodes"""
+    out = []
+    for line, x in nodes:
+        if x[0] != "asg" or x[1] != "=":
+            continue
+        t = strip(x[2])
+        if kind(t) not in ("idx", "deref"):
+            continue
+        r = x[3]
+        while isinstance(r, list) and r and r[0] in ("cast", "seen"):
+            r = r[2] if r[0] == "cast" else r[1]
+        if kind(r) == "bin" and r[1] == "/" and is_int(r[3]) and int_val(r[3]) in (256, 65536, 16777216):
+            ty = r[4] if len(r) > 4 and isinstance(r[4], str) else ""
+            lt = strip(r[2])
+            lty = lt[2] if kind(lt) == "deref" else (lt[3] if kind(lt) in ("var", "idx") and len(lt) > 3 else "")
+            b = int_bits(lty) if isinstance(lty, str) and lty else None
+            signed = (b[1] if isinstance(b, tuple) else None)
+            if signed is None:
+                signed = isinstance(lty, str) and not lty.startswith(("u", "unsigned"))
+            if signed:
+                out.append((line, render(x)[:70]))
+    return out
+
+
+def rule_high_byte_by_shift(ctx):
+    """BYTEDIV (C06): the file image of an integer is produced byte by byte.  The high bytes of a *signed* value must be taken with a
+    shift (or after conversion to unsigned): `v / 256` truncates toward zero, so for a negative v that is not a multiple of 256
+    it is one more than the stored high byte must be (-12688 = 0xCE70 would be written CF 70).  No store of a byte is a signed
+    quotient by 256 / 65536 / 2^24.  The expected number of matches is zero, so the matcher runs on a built-in positive example
+    on every check."""
+    prog = ctx.prog
+    ex = [(1, ["asg", "=", ["idx", ["var", "buf", "l", "unsigned char[4]"], ["int", 0], "unsigned char"],
+               ["cast", "unsigned char", ["bin", "/", ["deref", ["var", "values", "p", "short *"], "short"], ["int", 256], "int"]], 1, "unsigned char"])]
+    if not _signed_div_bytes(ex, prog.int_bits):
+        ctx.unrecognised("BYTEDIV", "BYTEDIV:selftest", "-", "the matcher no longer recognises its built-in positive example")
+    n = 0
+    for f in prog.lib_funcs():
+        nodes = [(s.get("l", f.line), x) for _b, _i, s, x in f.nodes(True)]
+        n += 1
+        for line, txt in _signed_div_bytes(nodes, prog.int_bits):
+            ctx.violated("BYTEDIV", "BYTEDIV:%s" % f.name, f.where(line), "`%s` takes a high byte of a signed value by division: wrong by one for negative values that are not multiples of the divisor" % txt)
+    ctx.holds("BYTEDIV", "BYTEDIV:all", "-", "%d functions scanned: no byte is stored from a signed quotient by 256 / 65536 / 2^24" % n, nontrivial=False)
+    ctx.floor("BYTEDIV", 500, n, "(functions scanned)")
+    return n
